@@ -309,22 +309,28 @@ func runReal(env *realEnv, sc realScen, r *mrand.Rand, w *ndWriter, pw *ndWriter
 	inner := realName(r, sc.NameLen)
 	target := env.config("k1", 7, sc.Suite, public)
 	var keys []ech.Key
-	mk := func(kid string, cid uint8) ech.Key {
-		return ech.Key{Config: env.config(kid, cid, sc.Suite, public), PrivateKey: env.kr.privs[kid].Bytes(), SendAsRetry: true}
+	mkp := func(kid string, cid uint8, pub string) ech.Key {
+		return ech.Key{Config: env.config(kid, cid, sc.Suite, pub), PrivateKey: env.kr.privs[kid].Bytes(), SendAsRetry: true}
 	}
+	mk := func(kid string, cid uint8) ech.Key { return mkp(kid, cid, public) }
 	switch sc.Keys {
 	case "K2K1":
 		keys = []ech.Key{mk("k2", 7), mk("k1", 7)}
 	case "K1K4":
 		keys = []ech.Key{mk("k1", 7), mk("k4", 8)}
 	case "K3K1":
-		keys = []ech.Key{mk("k3", 7), mk("k1", 7)}
+		// another held key with the same config id, published under a different public name
+		keys = []ech.Key{mkp("k3", 7, "public-b.example.org"), mk("k1", 7)}
 	default:
 		keys = []ech.Key{mk("k1", 7)}
 	}
 	clientCfgBytes := target
-	if sc.First == "grease" { // stale: a key nobody holds any more, same id and public name
-		clientCfgBytes = env.config("kx", 7, sc.Suite, public)
+	outerName := public
+	if sc.First == "grease" { // stale: a key nobody holds any more, same id; the public name has since been renamed in half of the runs
+		if idx%2 == 1 {
+			outerName = "old-public.example.com"
+		}
+		clientCfgBytes = env.config("kx", 7, sc.Suite, outerName)
 	}
 	var retryWant []byte
 	{
@@ -368,7 +374,7 @@ func runReal(env *realEnv, sc realScen, r *mrand.Rand, w *ndWriter, pw *ndWriter
 		bc.ClientAuth = tls.RequireAnyClientCert
 	}
 	pc := bc.Clone()
-	pc.Certificates = []tls.Certificate{env.pki.leaf(public, false, 0)}
+	pc.Certificates = []tls.Certificate{env.pki.leaf(public, false, 0), env.pki.leaf("old-public.example.com", false, 0)}
 	pc.EncryptedClientHelloKeys = keys
 	pc.ClientAuth = tls.NoClientCert
 
@@ -466,7 +472,7 @@ func runReal(env *realEnv, sc realScen, r *mrand.Rand, w *ndWriter, pw *ndWriter
 		obs["conn_accepted"] = sr.accepted
 		obs["names_ok"] = sr.connSNI == sr.backendSNI && (sr.err != "" || sr.backendProto == "" || contains(sr.connALPN, sr.backendProto))
 		obs["conn_sni_inner"] = sr.connSNI == inner
-		obs["conn_sni_public"] = sr.connSNI == public
+		obs["conn_sni_public"] = sr.connSNI == outerName
 		obs["conn_alpn_ok"] = fmt.Sprint(sr.connALPN) == fmt.Sprint(clientALPN)
 		obs["backend_sni_inner"] = sr.backendSNI == inner
 		obs["proto"] = sr.backendProto
